@@ -189,10 +189,11 @@ func TestVerifC05Sessions(t *testing.T) {
 			labelCounter++
 			label := vstat.Seed()<<32 ^ 0x0500000000000000 ^ labelCounter<<8 ^ uint64(i)
 			s := rig.GenSession(rt, label, 4)
+			bulk := s.DownSize >= 3<<20 && len(s.Carriers) == 2 && s.Carriers[1].DialDelayMs >= 1500 // the "gap under load" family keeps its size
 			if s.UpSize > 300000 {
 				s.UpSize = 300000
 			}
-			if s.DownSize > 300000 {
+			if s.DownSize > 300000 && !bulk {
 				s.DownSize = 300000
 			}
 			s.StartDelayMs = rapid.SampledFrom([]int{0, 0, 5, 50, 300}).Draw(rt, "start")
